@@ -420,11 +420,18 @@ fn mutate_node(d: &mut Desc, ch: &mut Choices) -> Option<&'static str> {
             *d = inner;
             Some("drop-negation")
         }
-        Desc::Pair(k, a, b) => match ch.choose(3) {
+        Desc::Pair(k, a, b) => match ch.choose(4) {
             0 => {
                 // swap operands of an ASYMMETRIC statement / difference
                 std::mem::swap(a, b);
                 Some("swap-asymmetric-operands")
+            }
+            3 => {
+                // two differences at once: another asymmetric constructor AND swapped operands
+                // (e.g. predictive vs. retrospective implication the other way round)
+                std::mem::swap(a, b);
+                *k = (*k + 1 + ch.choose(N_PAIR as u32 - 1) as u8) % N_PAIR;
+                Some("swap-operands-and-pair-constructor")
             }
             1 => {
                 *k = (*k + 1 + ch.choose(N_PAIR as u32 - 1) as u8) % N_PAIR;
